@@ -11,37 +11,44 @@ EXTENDS Codec, TLC, Json, IOUtils
 Trace == ndJsonDeserialize(IOEnv.VERIF_TRACE)
 Mode  == IOEnv.VERIF_MODE
 
+\* Lines recorded by the in-situ hook of RunCycle (verif_trace.go; e.g. from the repository's own test suite) carry the
+\* queue as it was after the pop ("qpre") and may give the core sparsely (cells that differ from the initial core).
+QPre(e) == IF "qpre" \in DOMAIN e THEN e.qpre ELSE << >>
+Pre(e)  == IF "sparse" \in DOMAIN e /\ e.sparse = 1
+           THEN ApplyDiff([a \in 0..e.M-1 |-> Blank], e.pre, 1) ELSE DecCore(e.pre)
+
 CheckC01(e) ==
   LET cfg  == [M |-> e.M, RL |-> e.RL, WL |-> e.WL]
-      pre  == DecCore(e.pre)
+      pre  == Pre(e)
       r    == ExecTask(pre, e.pc, cfg)
       post == ApplyDiff(pre, e.d, 1)
   IN /\ e.panic = ""
      /\ r.core = post
-     /\ Cap(r.push, e.P) = e.q
-     /\ (e.alive = 1) = (r.push # << >>)
+     /\ Cap(QPre(e) \o r.push, e.P) = e.q
+     /\ (e.alive = 1) = (QPre(e) \o r.push # << >>)
 
 CheckC11(e) ==
   LET M == e.M
-      pre  == DecCore(e.pre)
+      pre  == Pre(e)
       post == ApplyDiff(pre, e.d, 1)
+      np   == Len(QPre(e))
   IN /\ e.panic = ""
      \* every cell that differs is within floor(W/2) of the executing instruction
      /\ \A a \in DiffAddrs(e.d) : post[a] # pre[a] => CDist(a, e.pc, M) <= e.WL \div 2
      \* every queued successor is pc+1, pc+2 or within floor(R/2)
-     /\ \A k \in 1..Len(e.q) : \/ e.q[k] \in {(e.pc + 1) % M, (e.pc + 2) % M}
+     /\ \A k \in (np+1)..Len(e.q) : \/ e.q[k] \in {(e.pc + 1) % M, (e.pc + 2) % M}
                                \/ CDist(e.q[k], e.pc, M) <= e.RL \div 2
      \* limits equal to the core size have no effect at all
      /\ (e.RL = M /\ e.WL = M) =>
-           LET r == ExecTaskNoFold(pre, e.pc, M) IN r.core = post /\ Cap(r.push, e.P) = e.q
+           LET r == ExecTaskNoFold(pre, e.pc, M) IN r.core = post /\ Cap(QPre(e) \o r.push, e.P) = e.q
 
 Check(e) == IF Mode = "C11" THEN CheckC11(e) ELSE CheckC01(e)
 
 \* what the reference interpreter expects (printed for rejected lines when VERIF_EXPLAIN is set)
 Explain(e) ==
-  LET pre == DecCore(e.pre)
+  LET pre == Pre(e)
       r   == ExecTask(pre, e.pc, [M |-> e.M, RL |-> e.RL, WL |-> e.WL])
-  IN [executing |-> pre[e.pc], queue |-> Cap(r.push, e.P),
+  IN [executing |-> pre[e.pc], queue |-> Cap(QPre(e) \o r.push, e.P),
       changed |-> {<<a, r.core[a]>> : a \in {x \in 0..e.M-1 : r.core[x] # pre[x]}}]
 
 VARIABLE l
